@@ -114,7 +114,7 @@ func checkCmd(args []string) {
 		fmt.Fprintln(os.Stderr, err)
 		os.Exit(2)
 	}
-	timeout := 10
+	timeout := 20
 	if *tier == "thorough" {
 		timeout = 60
 	}
@@ -552,6 +552,13 @@ func adapterInput(adapter string, vals map[string]string) (string, bool) {
 			S, T, okS, okT = "", "", false, false
 		}
 		return fmt.Sprintf(`{"S":%s,"T":%s,"s":"%s","t":"%s","domain":%s}`, opt(S, okS), opt(T, okT), s, t, dom()), true
+	case "process_vvec":
+		th, ok1 := pick(vals, `threshold`)
+		ln, ok2 := pick(vals, `^len\(vVec\)$`, `len\(.*VVec`)
+		if ok1 && ok2 {
+			return fmt.Sprintf(`{"threshold":%s,"vveclen":%s}`, th, ln), true
+		}
+		return `{"search":true}`, true
 	case "rules_prop":
 		slot, ok := pick(vals, `^req\.Slot$`, `\.Slot$`)
 		if !ok {
@@ -571,6 +578,7 @@ var adapterPkg = map[string][2]string{
 	"rules_att":  {"rules/standard", "TestVerifReplayRulesAtt"},
 	"rules_prop": {"rules/standard", "TestVerifReplayRulesProp"},
 	"regexify":   {"services/checker/static", "TestVerifReplayRegexify"},
+	"process_vvec": {"services/process/standard", "TestVerifReplayProcessVVec"},
 }
 
 // runReplay injects the adapter as an in-package test through -overlay (nothing is written to the repo).
